@@ -1037,3 +1037,66 @@ def hdrv3(pid):
         res.floor("rewrites of header word 40", n, ctx.table("floors").get("hdrv3_sites", 0))
         return res
     return run
+
+
+def namelimit(pid):
+    """R-NAMELIMIT: validate_name is the gate in front of a 32-unit name field (DirEntry::write_to stores UTF-16 code
+    units and a terminator).  Its length refusal must measure the name in UTF-16 code units: a count of chars or
+    bytes lets a name with supplementary-plane characters through (1 char = 2 units), and the entry is refused or
+    truncated only when it is serialised - after the slot was allocated and linked."""
+    def run(ctx):
+        res = RuleResult("R-NAMELIMIT(%s)" % pid, "validate_name refuses over-long names by a length counted over encode_utf16() against MAX_NAME_LEN; no length test there counts chars or bytes")
+        f = ctx.fx.fns.get("internal::path::validate_name")
+        if f is None:
+            res.gone.append("validate_name")
+            return res
+        g = _guards(ctx, f)
+        from rules_api import refusals
+        n = 0
+        good = 0
+        for (c, kind) in refusals(ctx, f):
+            for a in g.atoms_at(("t", c.bb)):
+                m = re.match(r"^\((Gt|Ge)\((.*),(const:[^(),]*|Add\(const:[^()]*\))\)\)$", a)
+                if not m or not re.search(r"(len|count)\(", m.group(2)):
+                    continue
+                n += 1
+                if "encode_utf16(" in m.group(2) and "chars(" not in m.group(2):
+                    good += 1
+                    res.ok({"function": f.path, "line": c.line, "length_measured_as": m.group(2)[:100]}, nontrivial=True)
+                else:
+                    res.fail(Finding(res.rule, "R-NAMELIMIT/%s/length-not-in-utf16-units" % f.path, "validate_name refuses over-long names by %s, which is not a count of UTF-16 code units: a name of at most 31 chars but more than 31 units passes, and the 32-unit name field cannot hold it (the entry is refused or truncated after it was allocated and linked)" % m.group(2)[:100], f, c.term["span"]))
+        res.floor("length refusals in validate_name", n, ctx.table("floors").get("namelimit_sites", 0))
+        return res
+    return run
+
+
+def trimloop(pid):
+    """R-TRIMLOOP: releasing a mini sector trims ALL trailing free entries off the cached MiniFAT and shortens the mini
+    stream by as much (open does the same to what it reads, and leaves the root length alone).  Trimming entry by
+    entry is only complete when it repeats: a `pop` on the MiniFAT in free_mini_sector sits inside a loop.  Trimmed
+    once per call, a chain released front to back leaves free entries behind a shorter table; after a reopen the
+    recorded mini stream is longer than the MiniFAT and every create/remove cycle adds to it."""
+    from cfg import natural_loops
+
+    def run(ctx):
+        res = RuleResult("R-TRIMLOOP(%s)" % pid, "every Vec::pop on self.minifat in MiniAllocator::free_mini_sector lies inside a loop (the trailing free entries are trimmed to a fixpoint)")
+        f = ctx.fx.fns.get("internal::minialloc::MiniAllocator::<F>::free_mini_sector")
+        n = 0
+        if f is None:
+            res.gone.append("free_mini_sector")
+            return res
+        v = view(ctx, f)
+        pr = Prov(f)
+        inloop = set()
+        for (h, body, _b) in natural_loops(f):
+            inloop |= set(body)
+        for bb, c in sorted(v.calls.items()):
+            if c.name.endswith("Vec::<T, A>::pop") and c.term["args"] and pr.operand(c.term["args"][0]) == "param:self.minifat":
+                n += 1
+                if bb in inloop:
+                    res.ok({"function": f.path, "pop_line": c.line, "inside_loop": True}, nontrivial=True)
+                else:
+                    res.fail(Finding(res.rule, "R-TRIMLOOP/%s/single-trim" % f.path, "free_mini_sector removes one trailing free MiniFAT entry and does not look again: a mini chain released front to back leaves free entries at the end of the table although the mini stream length was only reduced by one sector; after a reopen (which strips them all) the recorded mini stream is longer than the MiniFAT and grows with every create/remove cycle", f, c.term["span"]))
+        res.floor("MiniFAT trims in free_mini_sector", n, ctx.table("floors").get("trimloop_sites", 0))
+        return res
+    return run
